@@ -8,6 +8,22 @@ Values strings, values_default, and how the factory is called.  The oracle
 builds the class in a FakedWBEMConnection, creates the ValueMapping through
 the public factory and compares tovalues() / tobinary() / items() with the
 reference model below (statement of C20 + class docstring of ValueMapping).
+
+Sub-check history: what a ValueMapping does is a function of the qualifier
+pair as defined in the class and of the values_default of its own factory
+call - not of the ValueMappings created before or after it.  One class with
+a value-mapped property, method and parameter is served either by the mock
+connection (a new class object per GetClass) or by a WBEMConnection with a
+client-side class cache that hands out the same class object (or a
+CIMClass.copy() of it, which shares the qualifier value lists) every time;
+the steps create ValueMappings for the three elements with varying
+values_default, look at earlier ValueMappings again and redefine elements.
+Each creation is judged by the same model as in sub-check mapping; a failure
+that the same call on a new class object does not show is reported as
+after-earlier-factory-calls:<signature>, one that an earlier ValueMapping
+shows only later as after-later-factory-calls:<signature>; in addition the
+class the connection serves must keep the qualifier values it was defined
+with, and ValueMapping.element must show the qualifiers as defined.
 """
 
 import re
@@ -45,10 +61,26 @@ RULE = (
     "documented attributes.  Sub-check malformed: one malformed ValueMap "
     "entry (fixed list of near-misses of the grammar + arbitrary text that a "
     "harness-side ABNF recogniser rejects), NULL qualifier values, missing "
-    "Values, non-integer element type, missing element.  Non-trivial = "
+    "Values, non-integer element type, missing element.  Sub-check history: "
+    "a case is a history of 1..12 (thorough: 24) steps on one class that has "
+    "a value-mapped property, method and parameter (three mapping recipes "
+    "as above, 40 % of the equal-sized pairs made shorter/longer by 1..3 "
+    "Values items) x class source (mock connection: new class object per "
+    "GetClass; caching WBEMConnection handing out the same class object; "
+    "the same handing out CIMClass.copy()) x WBEMConnection/WBEMServer.  "
+    "Steps: create a ValueMapping for one of the elements (half of the time "
+    "one that was used before) with values_default None/'dflt'/'other'/''/"
+    "'Unknown' (= every combination first call x later call of given/not "
+    "given/another default, counted as create:again:... classes); probe an "
+    "earlier ValueMapping again (full comparison with its model); redefine "
+    "an element.  Per creation: the comparison of sub-check mapping at the "
+    "segment boundaries and 200 points, same call = same result, class "
+    "definition unchanged.  Non-trivial = "
     "mapping with an open range next to another entry, or a Values/ValueMap "
     "size mismatch with values_default given, or a non-decimal notation; for "
-    "malformed: every case.  Distinct = distinct recipe.")
+    "malformed: every case; for history: one element definition used with "
+    "two or more different values_default.  Distinct = distinct recipe / "
+    "distinct history.")
 ASSUMPTIONS = [
     "ValueMap numbers are generated inside the value range of the element's "
     "type (DSP0004: the represented value is constrained by the data type); "
@@ -71,6 +103,24 @@ ASSUMPTIONS = [
     "pair; the Python class of returned numbers is not asserted",
     "the element is defined in the class that is asked for (no inheritance: "
     "qualifier propagation belongs to C12)",
+    "history: the `server` argument is documented as WBEMConnection or "
+    "WBEMServer; a WBEMConnection subclass whose GetClass() answers from a "
+    "client-side cache (same CIMClass object, or a CIMClass.copy()) is such "
+    "a connection.  The factories document values_default as adjusting the "
+    "Values array for the ValueMapping and ModelError for values_default="
+    "None whenever the arrays differ in size - nothing allows them to alter "
+    "the class they retrieve, so a later factory call sees the definition "
+    "as it was",
+    "history: ValueMapping.element is 'the mapped CIM element', i.e. it "
+    "carries the ValueMap/Values qualifier values of the class definition "
+    "(not the adjusted array); only these two qualifier values and the type "
+    "are compared",
+    "history: for mappings the neighbour rule leaves undefined (see above) "
+    "either outcome is accepted, but identical factory calls on an unchanged "
+    "definition must give the same outcome and the same items()",
+    "history: octal numbers containing the digit 0 are written in decimal "
+    "(keeps the known finding create:octal-number-with-digit-0-rejected out "
+    "of the histories; sub-check mapping reports it)",
 ]
 SENSITIVITY = [
     "_values_tuple: 'lo = previous_hi + 1' -> 'previous_hi' -> "
@@ -101,6 +151,14 @@ SENSITIVITY = [
     "malformed/malformed:size-accepted",
     "_create_for_element: integer-type check disabled -> "
     "malformed/malformed:non-integer-type-accepted",
+    "_create_for_element: 'values_list = list(values_qual.value)' -> "
+    "'values_list = values_qual.value' (values_default adjustment done on "
+    "the qualifier of the retrieved class) -> history/after-earlier-"
+    "factory-calls:create:size-mismatch-without-default-accepted, history/"
+    "after-earlier-factory-calls:values-default:Values-array-adjusted-"
+    "wrongly, history/history:factory-call-changed-class-definition(Values), "
+    "history/ + mapping/attributes:element-differs-from-class-definition"
+    "(Values)",
 ]
 
 NS = 'root/cimv2'
@@ -365,6 +423,15 @@ def make_vm(rec, valuemap, values):
     except pywbem.CIMError:
         pass
     conn.add_cimobjects([cls], namespace=NS)
+    return call_factory(conn, rec)
+
+
+def call_factory(conn, rec):
+    """
+    The factory call of the recipe (element kind, via, namespace,
+    values_default) for the class CLASSNAME that `conn` serves.
+    """
+    kind = rec['kind']
     server = WBEMServer(conn) if rec['via'] == 'server' else conn
     ns = NS if rec['ns'] else None
     default = rec['default']
@@ -614,7 +681,12 @@ def _bin_ok(model, d, got):
     return True, ''
 
 
-def check_mapping(ctx, rec, vm, model, exhaustive):
+def check_mapping(ctx, rec, vm, model, exhaustive, valuemap=(), conn=None):
+    """
+    valuemap: the ValueMap array as defined in the class (None: no ValueMap
+    qualifier; (): not known to the caller); conn: the connection the
+    factory was given (default: the shared mock connection).
+    """
     once = _Once(ctx)
     typ = rec['type']
     T = S.INT_TYPES[typ]
@@ -782,12 +854,42 @@ def check_mapping(ctx, rec, vm, model, exhaustive):
         if getattr(vm, k) != exp[k]:
             once.fail('attributes:' + k, '%r != %r' % (getattr(vm, k),
                                                       exp[k]))
-    if vm.conn is not _conn():
+    if vm.conn is not (_conn() if conn is None else conn):
         once.fail('attributes:conn', repr(vm.conn))
     want_cls = {'property': CIMProperty, 'method': CIMMethod,
                 'parameter': CIMParameter}[rec['kind']]
     if not isinstance(vm.element, want_cls):
         once.fail('attributes:element', repr(vm.element))
+        return
+    # "the mapped CIM element": its two qualifiers are the ones the class
+    # defines - not the Values array adjusted for values_default, which is
+    # private to the ValueMapping
+    diff = element_differs(vm.element, rec, valuemap)
+    if diff:
+        once.fail('attributes:element-differs-from-class-definition(%s)' %
+                  diff[0], diff[1])
+
+
+def element_differs(element, rec, valuemap=()):
+    """
+    Compares a mapped element (of a ValueMapping or of a class) with its
+    definition in the recipe: None or (what, detail).
+    """
+    typ = element.return_type if isinstance(element, CIMMethod) \
+        else element.type
+    if typ != rec['type']:
+        return 'type', '%r, defined %r' % (typ, rec['type'])
+    quals = element.qualifiers
+    got = quals['Values'].value if 'Values' in quals else '<no qualifier>'
+    if got != list(rec['values']):
+        return 'Values', 'Values qualifier of the element: %r, defined: ' \
+            '%r (values_default %r)' % (got, rec['values'], rec['default'])
+    if valuemap != ():
+        got = quals['ValueMap'].value if 'ValueMap' in quals else None
+        if got != (None if valuemap is None else list(valuemap)):
+            return 'ValueMap', 'ValueMap qualifier of the element: %r, ' \
+                'defined: %r' % (got, valuemap)
+    return None
 
 
 def mapping_classes(rec, model, entries):
@@ -858,29 +960,51 @@ def _nontrivial(rec, model, entries):
                 (model is not None and model.open_next_to_entry))
 
 
-def mapping_oracle(ctx, rec, exhaustive):
+def expectation(rec):
+    """
+    (entries, valuemap, adj, model, shape_model) of a mapping recipe: the
+    entries the model works with (0-based numbers if there is no ValueMap),
+    the ValueMap array (None: no qualifier), the Values array adjusted for
+    values_default (None: sizes differ and no default), the model (None with
+    adj) and a model for the shape classes.
+    """
     entries = rec['entries']
     if entries is None:
         entries = [('s', (i, 'dec')) for i in range(len(rec['values']))]
         valuemap = None
     else:
         valuemap = [render_entry(e) for e in entries]
-    values = rec['values']
-    adj = adjusted_values(len(entries), values, rec['default'])
+    adj = adjusted_values(len(entries), rec['values'], rec['default'])
     model = Model(rec['type'], entries, adj) if adj is not None else None
     shape_model = model or Model(rec['type'], entries,
                                  [None] * len(entries))
+    return entries, valuemap, adj, model, shape_model
+
+
+def mapping_oracle(ctx, rec, exhaustive):
+    entries, _, _, _, shape_model = expectation(rec)
     ctx.case(nontrivial=_nontrivial(rec, shape_model, entries),
              classes=mapping_classes(rec, shape_model, entries))
+    run_creation(ctx, rec, exhaustive)
 
+
+def run_creation(ctx, rec, exhaustive, make=make_vm, conn=None):
+    """
+    One factory call for the recipe + comparison of what comes out with the
+    model.  make(rec, valuemap, values) does the call; ctx needs fail(),
+    fail_exc() and event().  Returns (outcome, ValueMapping or None, model,
+    ValueMap array the ValueMapping was created from).
+    """
+    entries, valuemap, adj, model, shape_model = expectation(rec)
+    values = rec['values']
     retried = False
     while True:
         try:
-            vm = make_vm(rec, valuemap, values)
+            vm = make(rec, valuemap, values)
         except (ModelError, ValueError) as exc:
             if adj is None:
                 ctx.event('outcome:size-mismatch-rejected')
-                return
+                return 'size-mismatch-rejected', None, None, valuemap
             bad_oct = [render_num(n) for e in entries for n in entry_nums(e)
                        if is_oct_with_zero(n)]
             if not retried and isinstance(exc, ModelError) and \
@@ -896,35 +1020,36 @@ def mapping_oracle(ctx, rec, exhaustive):
             if shape_model.ambiguous or shape_model.empty:
                 # the neighbour rule does not define this mapping
                 ctx.event('outcome:undefined-mapping-rejected')
-                return
+                return 'undefined-mapping-rejected', None, None, valuemap
             ctx.fail('create:valid-mapping-rejected-' + type(exc).__name__,
                      'ValueMap %r Values %r default %r: %s' % (
                          valuemap, values, rec['default'], exc))
-            return
+            return 'failed', None, None, valuemap
         except RecursionError as exc:
             if shape_model.ambiguous:
                 ctx.fail('create:RecursionError-open-range-end-facing-open-'
                          'end-or-unclaimed-marker',
                          'ValueMap %r' % (valuemap,))
-                return
+                return 'failed', None, None, valuemap
             ctx.fail_exc(exc, 'create')
-            return
+            return 'failed', None, None, valuemap
         except IndexError as exc:
             if adj is not None and len(values) > len(entries):
                 ctx.fail('create:IndexError-truncating-extra-Values-items',
                          'ValueMap %r Values %r default %r' % (
                              valuemap, values, rec['default']))
-                return
+                return 'failed', None, None, valuemap
             ctx.fail_exc(exc, 'create')
-            return
+            return 'failed', None, None, valuemap
         break
     if adj is None:
         ctx.fail('create:size-mismatch-without-default-accepted',
                  'ValueMap %r Values %r -> %r' % (valuemap, values,
                                                   list(vm.items())))
-        return
+        return 'failed', vm, None, valuemap
     ctx.event('outcome:created')
-    check_mapping(ctx, rec, vm, model, exhaustive)
+    check_mapping(ctx, rec, vm, model, exhaustive, valuemap, conn)
+    return 'created', vm, model, valuemap
 
 
 def _redec(e):
@@ -1070,9 +1195,349 @@ def malformed_oracle(ctx, rec):
                      valuemap, values, list(vm.items())))
 
 
+# ---------------------------------------------------------------------------
+# histories: several ValueMappings from one class definition
+
+class ClassCacheConnection(pywbem.WBEMConnection):
+    """
+    A WBEMConnection with a client-side class cache: GetClass() hands out
+    the cached class object itself ('same') or a CIMClass.copy() of it
+    ('copy'; copies share the qualifier value lists with the original).
+    Nothing is sent anywhere.
+    """
+
+    def __init__(self, mode):
+        super().__init__('http://localhost', default_namespace=NS)
+        self.mode = mode
+        self.cached = None
+
+    def GetClass(self, ClassName, namespace=None, **extra):
+        # pylint: disable=invalid-name,arguments-differ,unused-argument
+        if ClassName.lower() != CLASSNAME.lower() or \
+                namespace not in (None, NS):
+            raise pywbem.CIMError(pywbem.CIM_ERR_NOT_FOUND, ClassName)
+        return self.cached if self.mode == 'same' else self.cached.copy()
+
+
+HIST_KINDS = ('property', 'method', 'parameter')
+HIST_SOURCES = ('cache-same-object', 'cache-copy', 'mock')
+HIST_DEFAULTS = [None, None, None, 'dflt', 'dflt', 'other', '', 'Unknown']
+
+
+def _defined_quals(edef):
+    quals = []
+    if edef['entries'] is not None:
+        quals.append(CIMQualifier(
+            'ValueMap', [render_entry(e) for e in edef['entries']],
+            type='string'))
+    quals.append(CIMQualifier('Values', list(edef['values']),
+                              type='string'))
+    return quals
+
+
+def history_class(defs):
+    "fresh class object with the three value-mapped elements"
+    p, m, a = (defs[k] for k in HIST_KINDS)
+    return CIMClass(CLASSNAME, properties=[
+        CIMProperty('Other', None, type='uint8', qualifiers=_other_quals()),
+        CIMProperty('Pvm', None, type=p['type'], is_array=p['is_array'],
+                    qualifiers=_defined_quals(p))], methods=[
+        CIMMethod('Mvm', return_type=m['type'],
+                  qualifiers=_defined_quals(m), parameters=[
+                      CIMParameter('Other', type='uint8',
+                                   qualifiers=_other_quals()),
+                      CIMParameter('Par', type=a['type'],
+                                   is_array=a['is_array'],
+                                   qualifiers=_defined_quals(a))])])
+
+
+@st.composite
+def element_def(draw, kind):
+    base = draw(mapping_recipe(sorted(S.INT_TYPES)))
+    entries = base['entries']
+    if entries is not None:
+        # keeps the known octal defect out of the histories
+        entries = [_redec(e) for e in entries]
+    values = base['values']
+    n = len(values) if entries is None else len(entries)
+    if entries is not None and len(values) == n and draw(S._I10) < 4:
+        # more size mismatches than the single-mapping recipe has: they are
+        # what values_default acts on
+        k = draw(st.integers(1, 3))
+        if n and draw(st.booleans()):
+            values = values[:max(0, n - k)]
+        else:
+            values = values + ['extra %d' % i for i in range(k)]
+    return dict(type=base['type'], entries=entries, values=values,
+                is_array=False if kind == 'method' else base['is_array'])
+
+
+class _Collector:
+    """
+    Stands in for ctx during one step: failures are collected so that the
+    step can name those that only arise after other factory calls.
+    """
+
+    def __init__(self, ctx):
+        self.ctx = ctx
+        self.fails = []
+
+    def fail(self, sig, detail):
+        if sig not in [f[0] for f in self.fails]:
+            self.fails.append((sig, detail))
+
+    def fail_exc(self, exc, what='unexpected'):
+        self.ctx.fail_exc(exc, what)
+
+    def event(self, name, n=1):
+        if self.ctx is not None:
+            self.ctx.event(name, n)
+
+    def sigs(self):
+        return set(f[0] for f in self.fails)
+
+
+class _Quiet(_Collector):
+    "collector for the comparison run on a fresh class object"
+
+    def fail_exc(self, exc, what='unexpected'):
+        self.fail(what + ':' + type(exc).__name__, repr(exc))
+
+    def event(self, name, n=1):
+        pass
+
+
+class History:
+    """
+    One class with a value-mapped property, method and parameter, served by
+    a mock connection (new class object per GetClass) or by a connection
+    that caches the class object; steps create ValueMappings with varying
+    values_default, look at earlier ones again, or redefine an element.
+    Every ValueMapping is judged by the definition at the time of its
+    creation and its own values_default only.
+    """
+
+    def __init__(self, ctx):
+        self.ctx = ctx
+        self.defs = None
+        self.source = None
+        self.via = None
+        self.conn = None
+        self.calls = None       # kind -> values_defaults used on this def.
+        self.first = None       # (kind, default, ns) -> (outcome, items)
+        self.slots = None
+        self.changed = None     # kinds whose definition was seen modified
+        self.cls = None
+        self.varied = False     # one definition used with >1 values_default
+
+    def init_strategy(self):
+        @st.composite
+        def strat(draw):
+            return dict(
+                elems={k: draw(element_def(k)) for k in HIST_KINDS},
+                source=draw(st.sampled_from(HIST_SOURCES)),
+                via=draw(st.sampled_from(['conn', 'server'])))
+        return strat()
+
+    def setup(self, init):
+        self.defs = dict(init['elems'])
+        self.source = init['source']
+        self.via = init['via']
+        if self.source == 'mock':
+            # own connection: the shared one belongs to the other sub-checks
+            self.conn = pywbem_mock.FakedWBEMConnection(default_namespace=NS)
+            self.conn.add_cimobjects(list(_conn().GetQualifier(q)
+                                          for q in ('ValueMap', 'Values')))
+        else:
+            self.conn = ClassCacheConnection(self.source[6:].split('-')[0])
+        self.calls = {k: [] for k in HIST_KINDS}
+        self.first = {}
+        self.slots = []
+        self.changed = set()
+        self.cls = set(['source:' + self.source, 'via:' + self.via])
+        self._install()
+
+    def _install(self):
+        cls = history_class(self.defs)
+        if self.source == 'mock':
+            try:
+                self.conn.DeleteClass(CLASSNAME, namespace=NS)
+            except pywbem.CIMError:
+                pass
+            self.conn.add_cimobjects([cls], namespace=NS)
+        else:
+            self.conn.cached = cls
+
+    def step_strategy(self):
+        have_slots = bool(self.slots)
+        used = [k for k in HIST_KINDS if self.calls[k]]
+
+        @st.composite
+        def strat(draw):
+            r = draw(S._I100)
+            if r < 12 and have_slots:
+                return ('probe', draw(S._I10), draw(st.integers(0, 9999)))
+            if used and draw(S._I10) < 5:
+                # an element a ValueMapping was created for before
+                kind = draw(st.sampled_from(used))
+            else:
+                kind = draw(st.sampled_from(HIST_KINDS))
+            if r < 20:
+                return ('redefine', kind, draw(element_def(kind)))
+            return ('create', kind, draw(st.sampled_from(HIST_DEFAULTS)),
+                    draw(st.booleans()), draw(st.integers(0, 9999)))
+        return strat()
+
+    # -- steps
+
+    def _rec(self, kind, default, ns, seed):
+        return dict(self.defs[kind], kind=kind, default=default, ns=ns,
+                    via=self.via, seed=seed)
+
+    def _situation(self, kind, default):
+        "what this creation follows on the same definition"
+        edef = self.defs[kind]
+        n = len(edef['values']) if edef['entries'] is None \
+            else len(edef['entries'])
+        before = self.calls[kind]
+        if not before:
+            return 'first-for-this-definition'
+        if len(edef['values']) == n:
+            return 'again:sizes-equal'
+        given = [d for d in before if d is not None]
+        if not given:
+            return 'again:sizes-differ:no-default-before'
+        return 'again:sizes-differ:default-before:now-' + (
+            'none' if default is None else
+            'same-default' if default == given[-1] else 'other-default')
+
+    def _create(self, kind, default, ns, seed):
+        ctx = self.ctx
+        rec = self._rec(kind, default, ns, seed)
+        situation = self._situation(kind, default)
+        ctx.event('create:' + situation)
+        if situation.startswith('again:sizes-differ:default-before') and \
+                self.source != 'mock':
+            self.cls.add('history:mismatched-pair-recreated-after-default-on-'
+                         'cached-class')
+        col = _Collector(ctx)
+        conn = self.conn
+        outcome, vm, model, valuemap = run_creation(
+            col, rec, False, make=lambda r, m, v: call_factory(conn, r),
+            conn=conn)
+        alone = set()
+        if col.fails and any(self.calls.values()):
+            # the same call on a class object nothing was created from yet
+            fresh = ClassCacheConnection('same')
+            fresh.cached = history_class(self.defs)
+            quiet = _Quiet(None)
+            run_creation(quiet, rec, False,
+                         make=lambda r, m, v: call_factory(fresh, r),
+                         conn=fresh)
+            alone = quiet.sigs()
+        for sig, detail in col.fails:
+            if sig in alone or not any(self.calls.values()):
+                ctx.fail(sig, detail)
+            else:
+                ctx.fail('after-earlier-factory-calls:' + sig,
+                         '%s; values_default of the earlier calls: %r; the '
+                         'same call on a new class object does not show '
+                         'this' % (detail, self.calls))
+        # the same call on the same definition gives the same result
+        items = None if vm is None else list(vm.items())
+        key = (kind, default, ns)
+        if key not in self.first:
+            self.first[key] = (outcome, items)
+        elif self.first[key] != (outcome, items) and not col.fails:
+            ctx.fail('history:identical-factory-call-gives-another-result',
+                     '%s values_default=%r: first %r, now %r' % (
+                         kind, default, self.first[key], (outcome, items)))
+        self.calls[kind].append(default)
+        if len(set(self.calls[kind])) > 1:
+            self.varied = True
+        if outcome == 'created':
+            self.slots.append(dict(vm=vm, rec=rec, model=model,
+                                   valuemap=valuemap, sigs=col.sigs()))
+            del self.slots[:-6]
+        self._definition_intact('create')
+
+    def _probe(self, index, seed):
+        slot = self.slots[index % len(self.slots)]
+        col = _Collector(self.ctx)
+        check_mapping(col, dict(slot['rec'], seed=seed), slot['vm'],
+                      slot['model'], False, slot['valuemap'], self.conn)
+        for sig, detail in col.fails:
+            if sig not in slot['sigs']:
+                slot['sigs'].add(sig)
+                self.ctx.fail('after-later-factory-calls:' + sig, detail)
+
+    def _definition_intact(self, after):
+        """
+        The class the connection serves still has the qualifiers it was
+        defined with (reported once per element and definition).
+        """
+        if self.source == 'mock':
+            cls = self.conn.GetClass(CLASSNAME, namespace=NS,
+                                     LocalOnly=False, IncludeQualifiers=True)
+        else:
+            cls = self.conn.cached
+        meth = cls.methods['Mvm']
+        elems = dict(property=cls.properties['Pvm'], method=meth,
+                     parameter=meth.parameters['Par'])
+        for kind in HIST_KINDS:
+            edef = self.defs[kind]
+            valuemap = None if edef['entries'] is None else \
+                [render_entry(e) for e in edef['entries']]
+            diff = element_differs(elems[kind], dict(edef, default=None),
+                                   valuemap)
+            if diff and kind not in self.changed:
+                self.changed.add(kind)
+                self.ctx.fail(
+                    'history:factory-call-changed-class-definition(%s)' %
+                    diff[0], 'after %s, %s: %s; values_default of the calls '
+                    'so far: %r' % (after, kind, diff[1], self.calls))
+        other = dict(type='uint8', values=['other nine', 'other rest'],
+                     default=None)
+        for el in (cls.properties['Other'], meth.parameters['Other']):
+            diff = element_differs(el, other, ['9', '..'])
+            if diff and 'other' not in self.changed:
+                self.changed.add('other')
+                self.ctx.fail('history:factory-call-changed-class-definition'
+                              '(other-element)', diff[1])
+
+    def apply(self, step):
+        self.ctx.event('step:' + step[0])
+        if step[0] == 'create':
+            self._create(*step[1:])
+        elif step[0] == 'probe':
+            self._probe(*step[1:])
+        else:
+            kind, edef = step[1:]
+            self.defs[kind] = edef
+            self.calls[kind] = []
+            self.changed.discard(kind)
+            for key in [k for k in self.first if k[0] == kind]:
+                del self.first[key]
+            self._install()
+            self.cls.add('history:element-redefined')
+        return True
+
+    def finish(self):
+        again = self.varied
+        if len(self.slots) > 1:
+            self.cls.add('history:several-mappings-alive')
+        self.ctx.case(nontrivial=again, classes=sorted(self.cls))
+
+    def teardown(self):
+        self.conn = None
+        self.slots = None
+
+
 SUBCHECKS = [
     Sub('mapping', strategy=mapping_strategy, oracle=mapping_oracle_all,
         quick=(16, 240), thorough=(16, 12000), budget=(60, 1200)),
     Sub('malformed', strategy=malformed_recipe, oracle=malformed_oracle,
         quick=(8, 300), thorough=(16, 20000), budget=(60, 1200)),
+    Sub('history', machine=History, quick=(8, 60), thorough=(16, 3000),
+        steps=(12, 24), budget=(60, 1200)),
 ]
